@@ -437,8 +437,12 @@ pub fn new_body(c: &NewCase, obs: &mut Obs) -> Result<(), String> {
     // a segment may contain a single inner ':' (then it is simply not an identifier); anything that
     // could form "::" together with the separator would make the split ambiguous and is left out
     let ambiguous = |s: &String| s.contains("::") || s.starts_with(':') || s.ends_with(':');
-    if c.module.is_empty() || c.module.iter().any(ambiguous) || ambiguous(&c.ident) {
+    // (the identifier argument is one segment whatever it contains: "a::B" is simply not an identifier)
+    if c.module.is_empty() || c.module.iter().any(ambiguous) {
         return Ok(());
+    }
+    if c.ident.contains("::") {
+        obs.class("ident_argument_contains_separator");
     }
     let module_path = leak(&c.module.join("::"));
     let ident = leak(&c.ident);
@@ -533,7 +537,7 @@ pub fn c18_subs() -> Vec<Box<dyn Sub>> {
             quick: 30_000,
             thorough: 500_000,
             strat: Box::new(|| {
-                (seg(), vec(seg(), 1..5), table_strat(), any::<bool>())
+                (prop_oneof![12 => seg(), 1 => (seg(), seg()).prop_map(|(a, b)| format!("{a}::{b}")), 1 => seg().prop_map(|a| format!("{a}::"))], vec(seg(), 1..5), table_strat(), any::<bool>())
                     .prop_flat_map(|(ident, module, table, use_replace)| {
                         // bias: make some table keys hit actual segments
                         let all: Vec<String> = module.iter().cloned().chain(std::iter::once(ident.clone())).collect();
